@@ -2,6 +2,7 @@ import Driver.Parse
 import AvroModel.Impl.Rabin
 import AvroModel.Spec.Crc64
 import AvroModel.Spec.Denotes
+import AvroModel.Impl.DecimalLib
 open Avro Avro.Impl Driver
 
 def Driver.ExtTable.toDenExt (t : ExtTable) : Spec.DenExt :=
@@ -63,6 +64,28 @@ def runJudgeSer : P String := do
     | none => pure "bad-case hex"
   | _, _ => pure "judged # ok"
 
+/-- `de <backend> <maxSeq> <depth> <schema> <hint> <bytes>` → `ok <out> left <n>` / `err <class>`. -/
+def runDe : P String := do
+  let mk ← pBackend (fun b => { rest := b })
+  let maxSeq ← pNat
+  let depth ← pNat
+  let sm ← pSchemaMut
+  let hint ← pHint
+  let bs ← pBytes
+  let S := freezeNodes sm
+  match S[0]? with
+  | none => pure "noroot"
+  | some root =>
+    let cfg : DeConfig := { maxSeqSize := maxSeq, allowedDepth := depth }
+    -- generous: see `Theorems/C04.lean` for the bound that is proved sufficient
+    let fuel := (depth + 4) * (maxSeq + 8 * S.size + 64) + 16 * bs.length + 4096
+    let (r, st) := de deExtModel cfg S fuel root depth false hint (mk bs)
+    match r with
+    | .ok o => pure s!"ok {outToString o} left {st.rest.length}"
+    | .error .custom => pure "err custom"
+    | .error .io => pure "err io"
+    | .error .panic => pure "panic"
+
 /-- `crc <bytes>` → fingerprint by the model; oracle: the specification's bit-serial CRC. -/
 def runCrc : P String := do
   let bs ← pBytes
@@ -80,6 +103,7 @@ def dispatch (line : String) : String :=
       | "serv" => some (runSer true)
       | "judge-ser" => some runJudgeSer
       | "crc" => some runCrc
+      | "de" => some runDe
       | _ => none
     match p with
     | none => s!"bad-case unknown stream {cmd}"
